@@ -478,6 +478,11 @@ func (s *Server) handleSession(clientMAC net.HardwareAddr, data []byte) {
 		return
 	}
 
+	// The PPPoE payload holds at least the 2-byte PPP protocol field and must fit the frame
+	if hdr.Length < 2 || int(hdr.Length) > len(data)-6 {
+		return
+	}
+
 	session := s.sessions.GetSession(hdr.SessionID)
 	if session == nil {
 		return
